@@ -64,3 +64,19 @@ Definition batch_new (cols : list nat) : option nat :=
 (** The only other way to a [Batch] is [unsafe]. *)
 Definition batch_safe_ctor_unique : bool :=
   fact_batch_new_unchecked_is_unsafe && fact_only_new_unchecked_builds_batch && fact_batch_len_is_first_column.
+
+(** * The [entities!] macro: [new_unchecked] behind a safe-looking front
+    The arms of the macro call [Batch::new_unchecked] inside an [unsafe] block of their own, so they
+    are constructors reachable from safe code.  [entities!((c1, .., ck); n)] builds one [vec![c; n]]
+    per column; [evals] is what successive evaluations of the size expression return (it may have side
+    effects).  Whether it is evaluated once and the result reused is read off the source. *)
+Definition macro_cloned_cols (once : bool) (k : nat) (evals : list nat) : list nat :=
+  if once then repeat (hd 0 evals) k else firstn k (evals ++ repeat 0 k).
+Definition macro_cloned (k : nat) (evals : list nat) : list nat :=
+  macro_cloned_cols fact_entities_macro_evaluates_size_once k evals.
+
+(** every way to a [Batch] from safe code: [Batch::new], or a macro arm — the cloning one above, the
+    transposing one (rectangular by the macro pattern itself: one expression per tuple and column) and the
+    two without any column *)
+Definition batch_safe_ctors_known : bool :=
+  batch_safe_ctor_unique && fact_entities_macro_unchecked_arms_known.
